@@ -70,7 +70,10 @@ func drawStartPlan(rt *rapid.T) startPlan {
 	// Only what the LAST round leaves unsaved can still be unsaved at shutdown (every later request
 	// queues a new save job): short plans are repeated more often, long ones exercise many save starts.
 	if p.Rounds <= 4 {
-		p.Reps = rapid.IntRange(3, 8).Draw(rt, "reps")
+		if p.Pad > 40 {
+			p.Pad = 40
+		}
+		p.Reps = rapid.IntRange(20, 60).Draw(rt, "reps")
 	} else {
 		p.Reps = rapid.IntRange(1, 2).Draw(rt, "reps")
 	}
@@ -205,7 +208,7 @@ func runStartPlan(t *testing.T, p startPlan, dir string) (res startResult) {
 					for r := 1; r < p.Rounds; r++ {
 						time.Sleep(time.Until(start.Add(time.Duration(r)*5*time.Second + roundOffset(rng))))
 						spin(1 << rng.IntN(17))
-						for b := 0; b < 2; b++ {
+						for b := 0; b < 1; b++ {
 							prog.Set("round %d: POST reload-users", r)
 							ino := inodeOf(path)
 							code, body := rig.Reload()
@@ -294,6 +297,9 @@ func runStartPlan(t *testing.T, p startPlan, dir string) (res startResult) {
 				sigNotSaved, len(p.Muts), p.Pad, p.Reload, calls.Load(), map[string]string{"debounce": "6 s without requests", "shutdown": "at once"}[p.End], diffSets(got, want), strings.Join(all, "\n  "))
 			return
 		}
+		if rep > 0 {
+			continue // the fresh server is started on the first repetition's file
+		}
 		if d := restartCheck(b, kl, p.Stores, want, probe, dir); d != "" {
 			res.violation = fmt.Sprintf("SIG=C20/restart-does-not-accept-the-persisted-users after a stream of requests at the save instants and a graceful stop: %s", d)
 			return
@@ -311,8 +317,8 @@ func sigLostMidStream(reload bool) string {
 
 var recStart = ev.New("C20", "requests-as-a-save-starts",
 	"rapid, fake clock: 2-4 senders with disjoint names and keys send bursts of 1-4 add/update/delete requests back to back at start + r*5 s "+
-		"(r = 0..1-29, short plans of 2-4 rounds repeated 3-8 times; offset 0, or +-1 ns / +1 us in 3 of 10 bursts; 1..65 000 iterations of busy-spinning first), which from r = 1 on is the instant the debounced save of the "+
-		"previous round starts; in half of the plans a further goroutine POSTs reload-users twice at the same instants on the file nobody touched; store of "+
+		"(r = 0..1-29, short plans of 2-4 rounds repeated 20-60 times; offset 0, or +-1 ns / +1 us in 3 of 10 bursts; 1..65 000 iterations of busy-spinning first), which from r = 1 on is the instant the debounced save of the "+
+		"previous round starts; in half of the plans a further goroutine POSTs reload-users at the same instants on the file nobody touched; store of "+
 		"0-300 further users; the last save is the automatic one or a shutdown save right after the last burst. Every call, save and Stop has a completion bound "+
 		"(1 h fake, 30 s of real time without progress: SIG save-or-api-call-did-not-return); every request must be answered 2xx; after Stop the file must decode to the union of the senders' "+
 		"models and a fresh server must accept exactly those keys. One evaluation = one repetition of a plan. Non-trivial: during at least one API call the store file "+
